@@ -324,7 +324,9 @@ def rule_d(ctx):
         and am.has(f.node, f"if isinstance({other}.time, list):\n    time = time + [t + {off} for t in {other}.time]\nelse:\n    time = time + [{other}.time + {off}]") is not None \
         and am.has(f.node, "self.set_time(time)") is not None
     ctx.ob(R, f.qname, "relative times: self's times first, image's (plus offset) appended, and that list is what is stored", t_ok, str(am.show()), f.node)
-    ctx.ob(R, f.qname, "time_num grows by image.time_num", f"self.time_num += {other}.time_num" in texts, "", f.node)
+    tn = [n for n in ast.walk(f.node) if isinstance(n, (ast.Assign, ast.AugAssign)) and any(norm(t) == "self.time_num" for t in (n.targets if isinstance(n, ast.Assign) else [n.target]))]
+    tn_ok = [norm(n) for n in tn] in ([f"self.time_num += {other}.time_num"], [f"self.time_num = self.time_num + {other}.time_num"], [f"self.time_num = {other}.time_num + self.time_num"])
+    ctx.ob(R, f.qname, "time_num grows by image.time_num", tn_ok, f"time_num is updated by {[norm(n) for n in tn]}" if tn else "update of self.time_num not found", f.node, evidence=bool(tn))
     ctx.ob(R, f.qname, "the result is a series", "self.series = True" in texts, "", f.node)
     # the inner slicing helper lists time slices in increasing order
     helper = [n for n in ast.walk(f.node) if isinstance(n, ast.FunctionDef) and n is not f.node]
